@@ -641,6 +641,22 @@ def call_module(it, fv, args, kwargs):
         raise Unsupported('np.sum form')
     if name == 'dot':
         return it.matmul(args[0], args[1])
+    if name == 'einsum':
+        sig = args[0]
+        if sig == 'ni,ni->n' and len(args) == 3 and all(isinstance(x, SArr) and x.ndim == 2 for x in args[1:]):
+            a, b = args[1], args[2]
+            npm.shape_eq(ctx, a.shape, b.shape, 'einsum operand shapes')
+            inner = a.shape[1]
+            ga, gb = npm.fz(a), npm.fz(b)
+            cplx = a.dtype == 'complex' or b.dtype == 'complex'
+
+            def el(r):
+                if cplx:
+                    pr = lambda k: to_cx(scalar_arith('*', ga(r, k), gb(r, k), fp))
+                    return Cx(npm.np_sum(ctx, inner, lambda k: pr(k).re, 'es_re'), npm.np_sum(ctx, inner, lambda k: pr(k).im, 'es_im'))
+                return npm.np_sum(ctx, inner, lambda k: scalar_arith('*', ga(r, k), gb(r, k), fp), 'es')
+            return npm.new_arr(ctx, (a.shape[0],), el, 'complex' if cplx else 'real', 'einsum')
+        raise Unsupported('einsum signature %r' % (sig,))
     if name in ('any', 'all'):
         if isinstance(a0, SArr):
             return npm.np_any(ctx, a0, all_=(name == 'all'))
@@ -833,6 +849,32 @@ def call_pymethod(it, obj, name, args, kwargs):
                         return a
                     raise Unsupported('reshape')
                 return a
+            if a.ndim == 2 and (name in ('ravel', 'flatten') or (name == 'reshape' and (args[0] if len(args) == 1 else tuple(args)) in (-1, (-1,)))):
+                # C-order flattening: flat index k <-> (k div n1, k mod n1); ravel/reshape give a view, flatten a copy
+                n0, n1 = a.shape
+                tot = scalar_arith('*', n0, n1)
+                if isinstance(n1, int) and n1 == 1:
+                    v = a.view((n0,), lambda k: (k, 0), lambda r, c: (True, (r,)))
+                else:
+                    def imap(k):
+                        if isinstance(k, int) and isinstance(n1, int):
+                            return (k // n1, k % n1)
+                        kz, nz = tz(k), tz(n1)
+                        # k syntactically r*n1 + i: inside 0 <= i < n1 the pair is (r, i) — spares the solver div/mod
+                        if z3.is_add(kz) and kz.num_args() == 2:
+                            for mi in (0, 1):
+                                m_, i_ = kz.arg(mi), kz.arg(1 - mi)
+                                if z3.is_mul(m_) and m_.num_args() == 2:
+                                    for ri in (0, 1):
+                                        if z3.is_int(nz) and m_.arg(1 - ri).eq(nz):
+                                            r_ = m_.arg(ri)
+                                            ok = z3.And(i_ >= 0, i_ < nz)
+                                            return (z3.If(ok, r_, kz / nz), z3.If(ok, i_, kz % nz))
+                        return (kz / nz, kz % nz)
+                    v = a.view((tot,), imap, lambda r, c: (True, (scalar_arith('+', scalar_arith('*', r, n1), c),)))
+                if name == 'flatten':
+                    return npm.new_arr(ctx, v.shape, it.frozen_getter(v), a.dtype, 'copy')
+                return v
             raise Unsupported('%s of n-d array' % name)
         if name == 'view' and not args:
             return a
